@@ -107,11 +107,14 @@ def call(mod, name, i, gradmode):
             out = mod(arg_struct)
     outs = _flatten(out)
     grads = []
+    cot_state = None
     if g:
         live = [o for o in outs if o.requires_grad]
-        cots = [torch.as_tensor(_arr(tuple(o.shape), 9, np.float64)).to(o.dtype) for o in live]
+        cots = [torch.as_tensor(_arr(tuple(o.shape), 9, np.float64)).to(o.dtype).contiguous() for o in live]
+        cb = digest(cots)
         grads = list(torch.autograd.grad(live, leaves, grad_outputs=cots, allow_unused=True))
-    return arg_struct, before, outs, grads, out
+        cot_state = (cb, digest(cots))          # the caller's cotangents are arguments too: they must come back untouched
+    return arg_struct, before, outs, grads, out, cot_state
 
 
 def digest(o):
@@ -141,11 +144,26 @@ def op_result_digest(op, env):
         import pytorch_wavelets.dtcwt.coeffs as ic
         t = ic.qshift(op[1]) if op[1].startswith('qshift') else ic.level1(op[1], compact=True)
         return {'table': [hidden.canon(np.asarray(a)) for a in t]}
+    if kind == 'mixed':
+        # a call with an input of the OTHER floating dtype (float32 input to a float64 module): it may raise or return, but it
+        # must not change the module (later calls see the same buffers) - the result itself is not compared
+        _, name, i = op
+        m = env['inst'][name]
+        d = inputs(name, i)
+        try:
+            with torch.no_grad():
+                if 'x' in d:
+                    m(torch.tensor(d['x']).float() if d['x'].dtype == np.float64 else torch.tensor(d['x']).double())
+        except Exception:
+            pass
+        return {'mixed': 'done'}
     if kind == 'call':
         _, name, i, gm = op
         m = env['inst'][name]
-        args, before, outs, grads, raw = call(m, name, i, gm)
+        args, before, outs, grads, raw, cot_state = call(m, name, i, gm)
         after = digest(args)
+        if cot_state is not None and cot_state[0] != cot_state[1]:
+            after = ['cotangent_mutated', after]
         kept = [raw, [g for g in grads if g is not None]]          # the very objects handed to the caller
         env['keep'].append((op, kept, digest(kept)))
         return {'outputs': digest(outs), 'grads': digest(grads), 'args_before': before, 'args_after': after}
